@@ -194,3 +194,110 @@ def main_pairing():
         sys.exit(1)
     print("not reproduced")
     sys.exit(0)
+
+
+def main_3ph():
+    """runpp_3ph on a net with a dcline: no auxiliary elements are added there, so nothing may be removed from the user's tables"""
+    import copy
+    fails = []
+
+    def build():
+        net = pp.create_empty_network()
+        pp.create_buses(net, 4, 20.)
+        pp.create_ext_grid(net, 0, s_sc_max_mva=1000, rx_max=0.1, x0x_max=1.0, r0x0_max=0.1)
+        for f, t in ((0, 1), (1, 2), (2, 3)):
+            pp.create_line_from_parameters(net, f, t, 5, r_ohm_per_km=0.2, x_ohm_per_km=0.3, c_nf_per_km=10, max_i_ka=0.4, r0_ohm_per_km=0.6,
+                                           x0_ohm_per_km=1.0, c0_nf_per_km=5)
+        pp.create_asymmetric_load(net, 3, p_a_mw=0.3, p_b_mw=0.2, p_c_mw=0.1, q_a_mvar=0.05, q_b_mvar=0.05, q_c_mvar=0.02)
+        pp.create_load(net, 2, 0.5, 0.1)
+        pp.create_gen(net, 1, p_mw=0.2, vm_pu=1.0, name="gen A", in_service=False)
+        pp.create_gen(net, 2, p_mw=0.1, vm_pu=1.0, name="gen B", in_service=False)
+        pp.create_dcline(net, 1, 3, p_mw=0.1, loss_percent=1, loss_mw=0.01, vm_from_pu=1.0, vm_to_pu=1.0)
+        return net
+    for first_runpp in (True, False):
+        net = build()
+        if first_runpp:
+            pp.runpp(net)
+        before = copy.deepcopy(net.gen)
+        outcome = "returned"
+        try:
+            pp.runpp_3ph(net)
+        except Exception as e:
+            outcome = f"raised {type(e).__name__}"
+        if not before.equals(net.gen):
+            fails.append(f"runpp_3ph ({'after a runpp' if first_runpp else 'on a fresh net'}) {outcome}: net.gen went from {len(before)} rows "
+                         f"{before.name.tolist()} to {len(net.gen)} rows {net.gen.name.tolist()}")
+    for f in fails:
+        print("REPRODUCED:", f)
+    if not fails:
+        print("not reproduced: runpp_3ph leaves net.gen as it was")
+    sys.exit(1 if fails else 0)
+
+
+def main_other_drivers():
+    """drivers outside the deductive part that convert user tables temporarily: the tables are as before when the driver raises"""
+    import copy
+    fails = []
+    # (1) run_contingency_ls2g with an ideal phase shifter; lightsim2grid rejects the net (ward)
+    import pandapower.contingency as cont
+    if getattr(cont.contingency, "lightsim2grid_installed", False):
+        net = pp.create_empty_network()
+        pp.create_buses(net, 5, 110.)
+        pp.create_ext_grid(net, 0)
+        for f, t in ((0, 1), (1, 2), (0, 2), (3, 4), (2, 4)):
+            pp.create_line(net, f, t, 10, "149-AL1/24-ST1A 110.0")
+        pp.create_transformer_from_parameters(net, 2, 3, sn_mva=100, vn_hv_kv=110, vn_lv_kv=110, vkr_percent=0.3, vk_percent=10, pfe_kw=0, i0_percent=0,
+                                              shift_degree=0, tap_side="hv", tap_neutral=0, tap_min=-5, tap_max=5, tap_pos=2, tap_step_degree=1.5,
+                                              tap_step_percent=0., tap_changer_type="Ideal")
+        pp.create_load(net, 4, 30, 5); pp.create_load(net, 1, 20, 5)
+        pp.create_ward(net, 1, ps_mw=1, qs_mvar=1, pz_mw=1, qz_mvar=1)
+        net.line["max_loading_percent"] = 100.; net.trafo["max_loading_percent"] = 100.
+        cols = ["tap_pos", "shift_degree", "tap_changer_type"]
+        before = copy.deepcopy(net.trafo[cols])
+        err = "returned"
+        try:
+            cont.run_contingency_ls2g(net, {"line": {"index": [0, 1, 2]}})
+        except Exception as e:
+            err = f"raised {type(e).__name__}"
+        changed = [c for c in cols if before[c].tolist() != net.trafo[c].tolist()]
+        if changed:
+            fails.append(f"run_contingency_ls2g {err} and left net.trafo changed: " +
+                         "; ".join(f"{c} {before[c].tolist()} -> {net.trafo[c].tolist()}" for c in changed))
+    else:
+        print("note: lightsim2grid is not installed, run_contingency_ls2g not exercised")
+    # (2) state estimation that is not observable, closed bus-bus switches are given an impedance temporarily
+    try:
+        from pandapower.estimation import estimate
+    except Exception as e:
+        estimate = None
+        print(f"note: pandapower.estimation does not import ({type(e).__name__}), not exercised")
+    if estimate is not None:
+        net = pp.create_empty_network()
+        b = [pp.create_bus(net, 10.) for _ in range(4)] + [pp.create_bus(net, 110.)]
+        pp.create_line_from_parameters(net, b[0], b[1], 10, r_ohm_per_km=.59, x_ohm_per_km=.35, c_nf_per_km=10.1, max_i_ka=1)
+        pp.create_transformer(net, b[4], b[0], std_type="40 MVA 110/10 kV")
+        pp.create_ext_grid(net, b[4])
+        for x, p in zip(b[:4], (.35, .45, .25, .15)):
+            pp.create_load(net, x, p_mw=p, q_mvar=.1)
+        pp.create_switch(net, b[1], element=b[2], et="b"); pp.create_switch(net, b[0], element=b[3], et="b")
+        pp.runpp(net, calculate_voltage_angles=True)
+        pp.create_measurement(net, "v", "bus", float(net.res_bus.vm_pu.at[b[4]]), .002, element=b[4])
+        pp.create_measurement(net, "p", "bus", float(net.res_bus.p_mw.at[b[4]]), .002, element=b[4])
+        pp.create_measurement(net, "q", "bus", float(net.res_bus.q_mvar.at[b[4]]), .002, element=b[4])
+        pp.create_measurement(net, "p", "line", float(net.res_line.p_from_mw.at[0]), .002, element=0, side="from")
+        before = copy.deepcopy(net.switch)
+        err = "returned"
+        try:
+            estimate(net, fuse_buses_with_bb_switch=None)
+        except BaseException as e:
+            err = f"raised {type(e).__name__}"
+        if err != "returned":
+            extra = [c for c in net.switch.columns if c not in before.columns]
+            if before.z_ohm.tolist() != net.switch.z_ohm.tolist() or extra:
+                fails.append(f"estimate(net, fuse_buses_with_bb_switch=None) {err} and left switch.z_ohm {before.z_ohm.tolist()} -> "
+                             f"{net.switch.z_ohm.tolist()}, added columns {extra}")
+    for f in fails:
+        print("REPRODUCED:", f)
+    if not fails:
+        print("not reproduced: the converted tables are restored when the driver raises")
+    sys.exit(1 if fails else 0)
